@@ -18,7 +18,8 @@
 (*   M sampling metadata;                                                  *)
 (* "mutually consistent" (Consistent) relates them.                        *)
 (*                                                                         *)
-(* Design under verification: TxPerOp = 1, DurableCommit = TRUE            *)
+(* Design under verification: TxPerOp = 1, DurableCommit = TRUE,           *)
+(* ChunkMax = 0 (one operation = one durable unit, whatever its size)      *)
 (* (RedbStore::write_tx, Durability::Immediate).  The other values are     *)
 (* the design mutants the property excludes (MC_StoreCrash_*.cfg show TLC  *)
 (* refuting CrashSafe for them).                                           *)
@@ -27,6 +28,8 @@ EXTENDS Store, TLC
 
 CONSTANTS TxPerOp,         \* 1 | 2 (2: header+hash tables and range+metadata tables in separate transactions)
           DurableCommit,   \* BOOLEAN
+          ChunkMax,        \* 0 = an insert is one transaction whatever its length; n > 0: longer batches are
+                           \*     committed in parts of n headers (top part first)
           MaxOps           \* bound on state-changing operations per behaviour (transaction ids grow)
 
 VARIABLES ackd,    \* state after the last acknowledged operation            [hdr, sampled, pruned, meta]
@@ -91,28 +94,46 @@ CInit == /\ Init
          /\ file = {SlotW(0)} \cup {PageW(0, p) : p \in Parts}     \* RedbStore::new has returned
          /\ cache = <<>> /\ root = 0
 
-\* Start a store operation: `A` is an action of Store.tla.  A failing operation (or one that
-\* changes nothing) aborts its transaction: nothing reaches the backend.
-Begin(A) ==
+\* An operation is one atomic unit whatever its size.  The design mutant ChunkMax > 0 writes an
+\* insert of more than ChunkMax headers as several transactions, top part first (each part is a
+\* consistent store state of its own); Stages(b) are the states those extra commits publish.
+AfterInsert(s, b) ==
+    LET rng == b[1].h .. b[Len(b)].h IN
+    [hdr |-> [h \in (DOMAIN s.hdr) \cup rng |-> IF h \in rng THEN b[h - b[1].h + 1] ELSE s.hdr[h]],
+     sampled |-> s.sampled \ rng, pruned |-> s.pruned \ rng, meta |-> s.meta]
+Stages(b) ==
+    IF ChunkMax = 0 \/ Len(b) <= ChunkMax THEN <<>>
+    ELSE LET n == (Len(b) + ChunkMax - 1) \div ChunkMax IN
+         [j \in 1..(n - 1) |-> AfterInsert(StateRec, SubSeq(b, Len(b) - j * ChunkMax + 1, Len(b)))]
+
+\* Start a store operation: `A` is an action of Store.tla, `mid` the states published by commits
+\* before the final one (<<>> in the design).  A failing operation (or one that changes nothing)
+\* aborts its transaction: nothing reaches the backend.
+Begin(A, mid) ==
     /\ plan = <<>> /\ infl = <<>>
     /\ A
     /\ IF res' \in Errors \/ svars' = svars
        THEN UNCHANGED cvars
-       ELSE /\ MaxOf(DOMAIN txc) < MaxOps * TxPerOp
-            /\ LET new  == Img(StateRec')
-                   base == txc[root]
+       ELSE /\ MaxOf(DOMAIN txc) < MaxOps * TxPerOp * (IF ChunkMax > 0 THEN 2 ELSE 1)
+            /\ LET base == txc[root]
                    top  == MaxOf(DOMAIN txc)          \* ids are never reused (a lost transaction's pages may linger)
-                   k    == Len(Groups)
-                   upto(j) == UNION {Groups[i] : i \in 1..j}
-                   tx(j) == [img |-> [p \in Parts |-> IF p \in upto(j) THEN new[p] ELSE base.img[p]],
-                             loc |-> [p \in Parts |-> IF p \in upto(j)
-                                                      THEN top + (CHOOSE i \in 1..j : p \in Groups[i])
-                                                      ELSE base.loc[p]]]
-                   calls(j) == [i \in 1..Len(PartSeq(Groups[j])) |-> PageW(top + j, PartSeq(Groups[j])[i])]
-                               \o <<SlotW(top + j)>> \o (IF DurableCommit THEN <<SyncC>> ELSE <<>>)
-               IN /\ txc' = [n \in (DOMAIN txc) \cup ((top + 1)..(top + k)) |->
+                   G    == Len(Groups)
+                   nst  == Len(mid) + 1
+                   simg(j) == IF j = 0 THEN base.img ELSE IF j <= Len(mid) THEN Img(mid[j]) ELSE Img(StateRec')
+                   stage(k) == ((k - 1) \div G) + 1                  \* transaction k commits (a part group of) stage
+                   grp(k)   == ((k - 1) % G) + 1
+                   upto(i)  == UNION {Groups[x] : x \in 1..i}
+                   \* newest transaction <= k that wrote part p (0: none of this operation)
+                   writer(k, p) == LET ws == {x \in 1..k : p \in Groups[grp(x)]} IN IF ws = {} THEN 0 ELSE MaxOf(ws)
+                   tx(k) == [img |-> [p \in Parts |-> IF p \in upto(grp(k)) THEN simg(stage(k))[p] ELSE simg(stage(k) - 1)[p]],
+                             loc |-> [p \in Parts |-> IF writer(k, p) = 0 THEN base.loc[p] ELSE top + writer(k, p)]]
+                   calls(k) == [i \in 1..Len(PartSeq(Groups[grp(k)])) |-> PageW(top + k, PartSeq(Groups[grp(k)])[i])]
+                               \o <<SlotW(top + k)>> \o (IF DurableCommit THEN <<SyncC>> ELSE <<>>)
+                   RECURSIVE allcalls(_)
+                   allcalls(k) == IF k > nst * G THEN <<>> ELSE calls(k) \o allcalls(k + 1)
+               IN /\ txc' = [n \in (DOMAIN txc) \cup ((top + 1)..(top + nst * G)) |->
                                 IF n \in DOMAIN txc THEN txc[n] ELSE tx(n - top)]
-                  /\ plan' = IF k = 1 THEN calls(1) ELSE calls(1) \o calls(2)
+                  /\ plan' = allcalls(1)
             /\ infl' = <<StateRec'>>
             /\ UNCHANGED <<ackd, file, cache, root>>
 
